@@ -238,6 +238,20 @@ CHECKS["C13"] = dict(
     design="4 (C13)",
     note="granularity is per record (the lock is taken per record, not per message); a possible Stop() deadlock with a worker blocked on the mutex was noted by inspection (liveness, outside C13).")
 
+CHECKS["C14"] = dict(
+    engine="life",
+    technique="Lean 4 proof (event-level protocol of the exporter's background work and lifecycle; lockset by decide over extracted facts) + race-detector runs against real UDP/TCP sockets with randomised phases; partial (timing, termination and races observed)",
+    text="PARTIAL: proved on the lifecycle model over the exporter model - refresh_emits_all_templates (one well-formed template message per "
+         "recorded template per refresh, up to permutation, via C02), messages_not_intermixed / one_whole_message_per_write, "
+         "refresh_preserves_seq, close_idempotent / repeated_close_noop / stop_channel_closed_once, no_write_after_close, peer_close_detected, "
+         "model_satisfies_spec, and lockset_exporter + model_ties by decide over facts regenerated by tools/lockfacts-exporter (every field shared "
+         "with a background goroutine is accessed under templateMutex or atomically; exactly one Write per message). Timing, goroutine "
+         "termination and freedom from data races are observed: 12 UDP sessions (1 s refresh) and 12 TCP scenarios (50 ms connection check, peer "
+         "close, concurrent repeated Close) run against harness-owned sockets under the race detector; every datagram / stream frame is parsed "
+         "by the independent parser and the Spec verdicts are evaluated on every observation.",
+    design="4 (C14), 5 (D9 fixed)",
+    note="jsonBufferLen is written after the goroutines start and read on the JSON path (statically reachable from the refresher, never taken for template sets): kept visible as lockset_exporter_all_fields_partial.")
+
 NOT_YET = {}
 
 
